@@ -117,6 +117,23 @@ impl C15 {
         if rng.chance(1, 6) {
             inst.objective = Some(f_const(1.5)); // all ties
         }
+        // near ties: objective values that are distinct but only one or two ulps apart. The objective is
+        // exactly 1.0*x_a (+0.0), whose f64 value is x_a itself, so the exact reference is q(x_a).
+        let mut near_tie: Option<u64> = None;
+        if rng.chance(1, 6) && !inst.decision_variables.is_empty() {
+            let a = inst.decision_variables[0].id;
+            inst.decision_variables[0].kind = KIND_CONTINUOUS;
+            inst.decision_variables[0].bound = None;
+            inst.decision_variables[0].substituted_value = None;
+            inst.objective = Some(f_linear(linear(vec![(a, 1.0)], 0.0)));
+            // the variable must not be constrained elsewhere in a way that matters: constraints become constants
+            for c in inst.constraints.iter_mut().chain(inst.removed_constraints.iter_mut().filter_map(|r| r.constraint.as_mut())) {
+                let v = if rng.chance(1, 4) { 1.0 } else if c.equality == EQ_ZERO { 0.0 } else { -1.0 };
+                c.function = Some(f_const(v));
+            }
+            inst.decision_variable_dependency.clear();
+            near_tie = Some(a);
+        }
         let n = 1 + rng.usize_below(8);
         let mut ids: Vec<u64> = vec![];
         while ids.len() < n {
@@ -126,7 +143,15 @@ impl C15 {
             }
         }
         let nstates = if rng.chance(2, 3) { n } else { 1 + rng.usize_below(n) };
-        let states: Vec<v1::State> = (0..nstates).map(|_| gen_state_in_bounds(rng, &inst, None, regime)).collect();
+        let mut states: Vec<v1::State> = (0..nstates).map(|_| gen_state_in_bounds(rng, &inst, None, regime)).collect();
+        if let Some(a) = near_tie {
+            let base: f64 = *rng.pick(&[9007199254740992.0, 1e16, 0.3, 1.0, -7.5, 0.1, 123456.789]);
+            let ulp = |x: f64, n: i64| f64::from_bits((x.to_bits() as i64 + if x >= 0.0 { n } else { -n }) as u64);
+            for st in states.iter_mut() {
+                st.entries.insert(a, ulp(base, rng.range(-2, 2)));
+            }
+            mon.facet("selection/near-tie-objectives");
+        }
         let assign: Vec<(u64, usize)> = ids.iter().map(|i| (*i, rng.usize_below(nstates))).collect();
         let mut samples = v1::Samples::default();
         for (id, si) in &assign {
@@ -142,7 +167,7 @@ impl C15 {
                 mon.facet("selection/skipped:reference-rejects-state");
                 return;
             };
-            if rf.constraints.iter().any(near_threshold) || !matches!(rf.objective.tol, Tol::Exact) {
+            if rf.constraints.iter().any(near_threshold) || (near_tie.is_none() && !matches!(rf.objective.tol, Tol::Exact)) {
                 mon.facet("selection/skipped:uncertified");
                 return;
             }
